@@ -94,7 +94,10 @@ func (p *ProjectionPlan) processProjectionBatch(chunk []KVPair, ctx *ExecuteCtx)
 			cols[i], have = ctx.GetChunkFieldFinalResult(fname)
 		}
 		if !have {
-			cols[i], err = p.Fields[i].ExecuteBatch(chunk, ctx)
+			// No context: its per-chunk results are keyed by the first key of
+			// a chunk and still describe the chunks the scan filtered, one of
+			// which may start with the same key as this chunk of accepted pairs.
+			cols[i], err = p.Fields[i].ExecuteBatch(chunk, nil)
 		} else {
 			ctx.UpdateHit()
 		}
